@@ -121,7 +121,7 @@ def build_cases(ctx, trees):
     usable = [t for t in trees if not G.tree_uses_outer_from_with(t['units'])]
     ctx.coverage['mc_trees'] = len(trees)
     ctx.coverage['mc_trees_excluded_known_construct'] = len(trees) - len(usable)
-    pick = vlib.sample(usable, 2500 if quick else 60000, rnd)
+    pick = vlib.sample(usable, 1800 if quick else 60000, rnd)
     for t in pick:
         add(G.render_tree(t, rnd), 'mc')
     # (2) pressure
@@ -147,7 +147,7 @@ def build_cases(ctx, trees):
         add(G.with_own(rnd), 'pressure/with')
         add(G.module_program(rnd), 'pressure/module')
     # (3) random nestings
-    for _ in range(600 if quick else 12000):
+    for _ in range(450 if quick else 12000):
         add(G.random_program(rnd, maxdepth=rnd.choice([2, 3, 4])), 'random')
     # (4) the repository's own inputs (code -> spec direction)
     try:
@@ -185,13 +185,17 @@ def describe(c, e, why):
 
 
 def run(ctx):
+    import time
+    t0 = time.time()
     exe = vlib.build_harness(ctx, 'c02')
     trees = mc_trees(ctx)
+    vlib.log('C02: build+MC %.0fs, %d trees' % (time.time() - t0, len(trees)))
     cases = build_cases(ctx, trees)
     pinned = vlib.known_cases('C02')
     for p in pinned:
         cases.append(dict(id=len(cases), src=p['src'], origin='pinned', generated=False))
     proj = minify_and_project(ctx, exe, cases, 'main')
+    vlib.log('C02: %d cases minified and projected at %.0fs' % (len(cases), time.time() - t0))
 
     # what is outside the quantifier (decided by input syntax / by the minifier refusing the input)
     stat = {}
@@ -226,21 +230,32 @@ def run(ctx):
     idx = [i for i, e in enumerate(proj) if e['_judged']]
     accepted, why = validate(ctx, [proj[i] for i in idx], 'main')
     why = {idx[k]: w for k, w in why.items()}
+    vlib.log('C02: TLC validated %d programs at %.0fs (%d rejected)' % (len(idx), time.time() - t0, len(why)))
 
-    # every rejected program is minified and projected again ALONE and re-validated before it counts
+    # every rejected program is minified and projected again ALONE (fresh driver and node processes) and
+    # re-validated (one TLC run over the re-recorded lines) before it counts
     reproduced = 0
-    for i in sorted(why):
-        c = cases[i]
-        p1 = minify_and_project(ctx, exe, [dict(id=0, src=c['src'])], 'rerun%d' % i, procs=1)
+    bad = sorted(why)
+    if len(bad) > 60:
+        vlib.log('C02: %d rejections, re-running the first 60' % len(bad))
+        bad = bad[:60]
+    re_lines = []
+    for i in bad:
+        p1 = minify_and_project(ctx, exe, [dict(id=0, src=cases[i]['src'])], 'rerun%d' % i, procs=1)
         if p1[0]['st'] not in JUDGED:
-            raise vlib.Infra('rejected case is not judgeable in isolation: %s' % c['src'][:300])
-        _, w1 = validate(ctx, p1, 'rerun%d' % i)
-        if 0 in w1:
-            reproduced += 1
-            ctx.report(dict(src=c['src']), describe(c, p1[0], w1[0]),
-                       replay_obj=dict(keep=p1[0]['_keep_text'][:4000], shortened=p1[0]['_ren_text'][:4000], clauses=w1[0]))
-        else:
-            raise vlib.Infra('rejection (%s) did not reproduce in isolation: %s' % ('/'.join(why[i]), c['src'][:300]))
+            raise vlib.Infra('rejected case is not judgeable in isolation: %s' % cases[i]['src'][:300])
+        re_lines.append(p1[0])
+    if bad:
+        _, w1 = validate(ctx, re_lines, 'rerun')
+        for k, i in enumerate(bad):
+            c = cases[i]
+            if k in w1:
+                reproduced += 1
+                ctx.report(dict(src=c['src']), describe(c, re_lines[k], w1[k]),
+                           replay_obj=dict(keep=re_lines[k]['_keep_text'][:4000], shortened=re_lines[k]['_ren_text'][:4000],
+                                           clauses=w1[k]))
+            else:
+                raise vlib.Infra('rejection (%s) did not reproduce in isolation: %s' % ('/'.join(why[i]), c['src'][:300]))
     for p in pinned:
         i = next(k for k, c in enumerate(cases) if c['origin'] == 'pinned' and c['src'] == p['src'])
         if i not in why:
